@@ -4,6 +4,7 @@ all placements, padding/align), spec/warp/CrossGen.tla (different CRSs);  real c
 V: spec/warp/ReprojTrace.tla, spec/warp/CrossTrace.tla."""
 import json
 
+from ..core import idx
 from ..reproj_common import D, OffLattice, lat, plan, roi4
 
 
@@ -12,7 +13,7 @@ def execute(c):
         from odc.geo.overlap import compute_axis_overlap
         try:
             ss, dd = compute_axis_overlap(c["ns"], c["nd"], c["s"] / D, c["t"] / D)
-            return {"c": c, "outcome": "ok", "o": [int(ss.start), int(ss.stop), int(dd.start), int(dd.stop)]}
+            return {"c": c, "outcome": "ok", "o": [idx(ss.start), idx(ss.stop), idx(dd.start), idx(dd.stop)]}
         except Exception as ex:  # noqa: BLE001
             return {"c": c, "outcome": type(ex).__name__, "o": [0, 0, 0, 0]}
     ev = {"c": c, "outcome": "ok", "o": {"roi_src": [0, 0, 0, 0], "roi_dst": [0, 0, 0, 0], "paste_ok": False, "shrink": 1, "scale": 0}}
